@@ -72,11 +72,16 @@ def r_iter_readitems(F, R):
                     slices_, k_ = pos_[2]
                     rng = [f["name"] for f in F.adts["impls::slice::ReadSliceIterInner"]["variants"][0]["fields"]
                            if "Range" in f["ty"]["s"]]
-                    good = (inner_[0] == "place" and slices_[0] == "place" and inner_[3][-1:] == ("f:inner",) and
-                            slices_[3][-1:] == ("f:slices",) and inner_[3][:-1] == slices_[3][:-1] and
+                    same_region = (inner_[0] == "place" and slices_[0] == "place" and inner_[3][-1:] == ("f:inner",) and
+                                   slices_[3][-1:] == ("f:slices",) and inner_[3][:-1] == slices_[3][:-1])
+                    good = (same_region and
                             k_[0] == "call" and k_[1] == ("Iterator", "next") and k_[3] == ("v:Some", "f:0") and
                             k_[2][0][0] == "place" and k_[2][0][2] == ("arg", 1) and
                             (not rng or k_[2][0][3] == ("f:" + rng[0],)))
+                    if not good and same_region and k_[0] == "place" and k_[2] == ("arg", 1) and k_[3]:
+                        # the range is stepped by hand: position = the cursor field, which R-ITER
+                        # (positions) checks to be guarded by cursor < end and advanced by one
+                        good = True
             ok = ok and good
         R.check("R-ITER", b.label(), ok and not bad_adaptors(b),
                 construct="next = range.next().map(|i| region.inner.index(region.slices.index(i)))",
@@ -135,13 +140,24 @@ def r_iter_readitems(F, R):
         ctx = Ctx(b)
         somes = [nobb(t) for t in ret_alts(ctx) if t != NONE]
         ok = bool(somes)
+        unknown = False
         for t in somes:
             good = False
             if t[0] == "agg" and t[1] == "Option::Some" and t[2][0][0] == "call" and t[2][0][1] == ("Region", "index"):
                 col, idx = t[2][0][2]
+                # one zip over (row indices, columns): both halves of the same element
                 good = (col[0] == "call" and idx[0] == "call" and col[1] == idx[1] == ("Iterator", "next") and
                         col[2] == idx[2] and col[3] == ("v:Some", "f:0", "f:1") and idx[3] == ("v:Some", "f:0", "f:0"))
+                if not good and col[0] == "call" and idx[0] == "call" and col[1] == idx[1] and \
+                        col[1][1] in ("split_first", "first", "next") and col[2] != idx[2]:
+                    # two stored sequences advanced in lock step (heads of both): the pairing of
+                    # positions is kept by advancing both on the same path, which is not decided here
+                    unknown = True
+                    good = True
             ok = ok and good
+        if unknown and ok:
+            R.undecided_site("R-ITER", b.label(), "row iterator keeps two sequences and takes the head of each: "
+                             "that both advance together is not decided")
         R.check("R-ITER", b.label(), ok and not bad_adaptors(b),
                 construct="next = zip.next().map(|(i, column)| column.index(i))",
                 where=b.where(), detail="yields %s" % [show(t)[:150] for t in somes])
@@ -165,8 +181,12 @@ def r_index_types(F, R):
     for i in F.impls:
         if i["self_ty"].get("adt") == "impls::index::IndexList" and i.get("trait") == "impls::index::IndexContainer":
             preds |= set(i["predicates"])
-    ok = any("IndexContainer<u32>" in p and p.startswith("S:") for p in preds) and \
-        any("IndexContainer<u64>" in p and p.startswith("L:") for p in preds)
+    # by the type parameters of the two fields, whatever they are called
+    al = F.adts.get("impls::index::IndexList")
+    pnames = [f["ty"]["s"] for f in al["variants"][0]["fields"]] if al else []
+    small, large = (pnames + ["S", "L"])[:2] if len(pnames) >= 2 else ("S", "L")
+    ok = any("IndexContainer<u32>" in p and p.startswith(small + ":") for p in preds) and \
+        any("IndexContainer<u64>" in p and p.startswith(large + ":") for p in preds)
     R.check("R-TYPES", "impls::index::IndexList", ok, construct="S stores u32, L stores u64",
             detail="bounds %s" % sorted(p for p in preds if "IndexContainer" in p))
     # IndexOptimized::heap_size reports only spilled: covered by C18's exemption table; here: strided is a Stride
@@ -264,9 +284,54 @@ def r_exact_size(F, R, cat=None):
             R.saw(b)
             srcs = [callee_tag(t.get("callee")) for (_, t) in b.calls()]
             ok = any(tg[1] in ("size_hint", "len") for tg in srcs)
+            if not ok:
+                # computed from the iterator's own cursor fields (`end - start`, saturating)
+                from expr import ret_alts, nobb
+                c_ = Ctx(b)
+                for alt in ret_alts(c_):
+                    alt = nobb(alt)
+                    low = alt[2][0] if alt[0] == "agg" and alt[1] == "tuple" and alt[2] else alt
+                    places = [nd for nd in walk(low) if nd and nd[0] == "place" and nd[2] == ("arg", 1)]
+                    arith = [nd for nd in walk(low) if nd and ((nd[0] == "bin" and nd[1] == "Sub") or
+                                                                (nd[0] == "call" and nd[1][1] in ("saturating_sub", "checked_sub", "wrapping_sub")))]
+                    if places and arith:
+                        ok = True
             R.check("R-ITER", label, ok, construct="ExactSizeIterator impl backed by a size_hint override",
                     where=b.where(), detail="size_hint/len derived from %s" % [("%s::%s" % tg) for tg in srcs][:4])
     R.floor("R-ITER", "local ExactSizeIterator impls", n, 3)
+
+
+def cursor_stepped(c, e, origin):
+    """the looked-up position is a field of the iterator that the same body (a) compares strictly
+    below another field of self on a dominating branch and (b) advances by exactly one: the
+    hand-written form of `range.next()`"""
+    from expr import facts_at, tree, lin, nobb
+    body = c.body
+    if c.parent is not None:
+        return False
+    (r, p) = origin
+    cur = ("place", body.key, r, tuple(p))
+    guarded = False
+    for f in facts_at(c, e.bb):
+        f = tuple(nobb(x) if isinstance(x, tuple) else x for x in f)
+        if f[0] == "Lt" and f[1] == cur and f[2][0] == "place" and f[2][2] == ("arg", 1):
+            guarded = True
+        if f[0] == "Gt" and f[2] == cur and f[1][0] == "place" and f[1][2] == ("arg", 1):
+            guarded = True
+    if not guarded:
+        return False
+    steps = 0
+    for bi in body.live_blocks():
+        for si, st in enumerate(body.blocks[bi]["stmts"]):
+            if st["k"] == "assign" and st["place"]["p"]:
+                if any(o == (r, tuple(p)) for o in c.org.place(st["place"])):
+                    val = nobb(trees(c, c.org.rvalue(st["rv"], bi, si)))
+                    d = lin(val)
+                    if d.get(cur) == 1 and d.get(1) == 1 and len(d) == 2:
+                        steps += 1
+                    else:
+                        return False
+    return steps == 1
 
 
 def r_iter_positions(F, R, cat=None):
@@ -308,6 +373,8 @@ def r_iter_positions(F, R, cat=None):
                         why.append("result of %s::%s" % tag)
                     elif r[0] == "arg" and "[]" in p and p[0].startswith("f:"):
                         why.append("an element yielded by iterating self.%s" % p[0][2:])
+                    elif r == ("arg", 1) and p and cursor_stepped(c, e, (r, p)):
+                        why.append("a cursor field stepped by one under cursor < end (%s)" % c.org.describe((r, p)))
                     else:
                         ok = False
                         why.append("computed from %s" % c.org.describe((r, p)))
